@@ -46,6 +46,7 @@ def run(ctx):
         c["files"] = [dict(f, n=min(f["n"], 6 * c["chunk"])) for f in c["files"][:6]]
         c["timeout_ms"] = 10000
         cases.append(c)
+    cases += G.sibling_cases(rng)
     rc, results = G.run_xfer(ctx, exe, "healthy", cases, timeout=1500)
     if rc != 0 or len(results) != len(cases):
         ctx.oblige("harness:run", False, f"rc={rc} results={len(results)}/{len(cases)} {ctx.harness_stderr[-300:]}")
